@@ -36,7 +36,17 @@ def bounds(tier):
 def enumerate_cases(tier, seed):
     from checks import c01
 
-    return [c for c in c01.enumerate_cases(tier, seed) if not c.get("inverter")]  # the configured-inverter leg is C01's own
+    from mc import grammar as g
+
+    cases = [c for c in c01.enumerate_cases(tier, seed) if not c.get("inverter")]  # the configured-inverter leg is C01's own
+    # planar layers whose weight vector is EXACTLY zero (a zero-initialised or pruned layer, a conditioner whose last layer is zero):
+    # the map is a pure translation, log-det 0; identities such as w.u-hat = m(w.u) hold only for w != 0
+    for s in ({"k": "Planar", "dim": 2, "cond": None, "slope": None, "w0": True}, {"k": "Planar", "dim": 2, "cond": None, "slope": 0.1, "w0": True},
+              {"k": "Planar", "dim": 2, "cond": 2, "slope": 0.1, "w0": True}, {"k": "Planar", "dim": 3, "cond": 2, "slope": None, "w0": True},
+              {"k": "Planar", "dim": 2, "cond": None, "slope": 3.0, "w0": True}):
+        for x64 in (True, False):
+            cases.append({"id": ("f64|" if x64 else "f32|") + g.canon(s), "spec": s, "x64": x64, "tier": tier, "seed": seed})
+    return cases
 
 
 def _judge(ld, J, n, eps):
